@@ -101,7 +101,7 @@ var c18Ops = []c18Op{
 	{false, "tf.txt", false, ""}, {false, "tn.txt", false, ""},
 	{false, "sv.html", false, ""}, {false, "sv.js", false, ""}, {false, "q.html", false, ""},
 	{false, "rw.txt", false, "inv#7|5#y|inv"},
-	{false, "e3.html", false, ""}, {true, "e4.html", false, ""}, {false, "mg.txt", false, ""},
+	{false, "e3.html", false, ""}, {false, "mg.txt", false, ""},
 }
 
 // c18Epoch makes template names and patterns unique per schedule / iteration ("a~17.html" is served like
@@ -564,7 +564,7 @@ func c18Levels(tier string) []core.Level {
 	// all pairs of the first 12 operations; the later ones (nested includes, nil-context calls, padded templates with
 	// use, failing / nested macros, templates that end early) with themselves, with the others of their kind and with
 	// two of the first (html with blocks, css with include)
-	group := map[int]int{13: 1, 14: 1, 15: 2, 16: 2, 17: 2, 18: 3, 19: 3, 20: 4, 21: 4, 22: 5, 23: 5, 24: 6, 25: 6, 26: 6, 27: 6, 28: 4, 29: 4, 30: 6}
+	group := map[int]int{13: 1, 14: 1, 15: 2, 16: 2, 17: 2, 18: 3, 19: 3, 20: 4, 21: 4, 22: 5, 23: 5, 24: 6, 25: 6, 26: 6, 27: 6, 28: 4, 29: 6}
 	paired := func(i, j int) bool {
 		if j < 12 || i == 0 || i == 3 || i == j {
 			return true
@@ -589,7 +589,7 @@ func c18Levels(tier string) []core.Level {
 		nTriples = len(triples)
 	}
 	lv := []core.Level{
-		{Name: "twig env: pairs of 31 operations (incl. the same one twice), all schedules with <= 1 preemption", Gen: func(emit func(core.Case)) { pairs(0, 1, emit) }},
+		{Name: "twig env: pairs of 30 operations (incl. the same one twice), all schedules with <= 1 preemption", Gen: func(emit func(core.Case)) { pairs(0, 1, emit) }},
 		{Name: fmt.Sprintf("twig env: all pairs (but those with the two filter operations), all schedules with <= %d preemptions", bound), Gen: func(emit func(core.Case)) { pairs(0, bound, emit) }},
 		{Name: "core env: all pairs, all schedules with <= 1 preemption", Gen: func(emit func(core.Case)) { pairs(1, 1, emit) }},
 		{Name: fmt.Sprintf("twig env: %d three-thread scenarios, all schedules with <= 2 preemptions", nTriples), Gen: func(emit func(core.Case)) {
@@ -666,7 +666,7 @@ func init() {
 		Run:          c18Run,
 		NoDedup:      true,
 		Procs:        1, // cooperative hand-offs are ~10x cheaper on one P; the race workers use 4
-		Budget:       budget(5*time.Minute, 75*time.Minute),
+		Budget:       budget(7*time.Minute, 75*time.Minute),
 		CaseDeadline: 10 * time.Minute,
 	})
 }
